@@ -78,7 +78,8 @@ def determinism_sample(check, master, scratch, n, workers, tier):
         diffs = []
         for x, y in zip(a, bb):
             if (x.get("outcome"), x.get("digest")) != (y.get("outcome"), y.get("digest")):
-                if "timeout" in (x.get("outcome"), y.get("outcome")):
+                # real wall-clock step timeouts are the one thing the simulator does not own: runs that hit one are not compared
+                if "timeout" in (x.get("outcome"), y.get("outcome")) or x.get("had_timeout") or y.get("had_timeout"):
                     continue
                 diffs.append((x.get("seed"), x.get("outcome"), x.get("digest"), y.get("outcome"), y.get("digest")))
         return diffs, len(seeds)
